@@ -56,7 +56,7 @@ for _pid, _why in [
 ]:
     na(_pid, _why)
 
-prop("C02", ["sql_prec", "static_eval", "operator_tpl", "literals", "lex_numbers", "cid_inline", "lex_end_expr", "prql_prec", "range_sugar"], select={"range_sugar": lambda n: n.split(".", 1)[1].startswith(("EB1.", "EB2.", "EU", "IN", "NB1", "EN1", "NS1", "RR", "RN1")) or n.endswith(".safety"), "prql_prec": lambda n: n.split(".", 1)[1].startswith(("PP1.", "FP1.")) or n.split(".", 1)[1] in ("NPF", "needs_parenthesis.safety"), "literals": lambda n: n.split(".", 1)[1] in ("TL1i", "TL1f", "NE1", "number_expr.safety")},
+prop("C02", ["sql_prec", "static_eval", "operator_tpl", "literals", "lex_numbers", "cid_inline", "lex_end_expr", "prql_prec", "range_sugar", "lower_expr"], select={"lower_expr": lambda n: n.split(".", 1)[1] in ("LO1", "LO1i", "LC1", "LC1i", "LA1", "LA1i", "LP1", "LL1", "MB1") or n.endswith(".safety"), "range_sugar": lambda n: n.split(".", 1)[1].startswith(("EB1.", "EB2.", "EU", "IN", "NB1", "EN1", "NS1", "RR", "RN1")) or n.endswith(".safety"), "prql_prec": lambda n: n.split(".", 1)[1].startswith(("PP1.", "FP1.")) or n.split(".", 1)[1] in ("NPF", "needs_parenthesis.safety"), "literals": lambda n: n.split(".", 1)[1] in ("TL1i", "TL1f", "NE1", "number_expr.safety")},
      not_covered="evaluation inside the database; dialect templates beyond the strengths they declare; sites that build SQL operands "
                  "without translate_operand (process_concat, process_array_in, try_into_between) are not yet under contract")
 claim("C02",
@@ -69,11 +69,11 @@ claim("C02",
       "coalesce of literals (SE1), `case` reduced to its first TRUE branch or null, for any number of branches (SE2, loop invariant), ids and spans kept (SE3). "
       "a negative number literal is emitted as a unary minus on its magnitude, so no atom starts with a sign and `-` applied to it is parenthesized instead of forming `--` (literals TL1i, TL1f, NE1). Table obligations (one per row): for every constructible "
       "(parent operator, child class, side) the real strength/associativity tables never leave an operand bare where SQLite's documented "
-      "grammar would re-associate it (NP2.*). the operators are expanded to the std functions they are documented to be, with the operand written left of the operator bound to the parameter that stands for it - the position is read from std.prql on every run, so the operand swap of `**` in expand_binary and `let pow = exponent column` must agree (range_sugar EB1.<op>, EB2.<op>, one pair per operator; new_binop, Expr::new, FuncCall::new_simple whole); unary `-` / `!` / `+` / `==name` (EU1-4); `x | in a..b` is x >= a && x <= b, an open bound imposes nothing (IN1-3). NOT proved: that the database evaluates operators as documented.",
+      "grammar would re-associate it (NP2.*). the operators are expanded to the std functions they are documented to be, with the operand written left of the operator bound to the parameter that stands for it - the position is read from std.prql on every run, so the operand swap of `**` in expand_binary and `let pow = exponent column` must agree (range_sugar EB1.<op>, EB2.<op>, one pair per operator; new_binop, Expr::new, FuncCall::new_simple whole); unary `-` / `!` / `+` / `==name` (EU1-4); `x | in a..b` is x >= a && x <= b, an open bound imposes nothing (IN1-3). lowering keeps an operator's name and its operands in order, and the branches of a `case` in order with condition and value in place (lower_expr LO1, LC1). NOT proved: that the database evaluates operators as documented.",
       "Oracle = SQLite's documented precedence table (the executable grammar here). translate_expr is external (uninterpreted result, "
       "Context state not modelled); sqlparser enums are mechanically generated skeletons; sqlparser's Display is trusted to print trees as written.")
 
-prop("C01", ["split_order", "take_range", "operator_tpl", "vec_utils", "group_take", "flatten_sort", "sort_take", "sort_infer", "setop_pairs", "lower_transform", "positional_map", "sql_prec", "literal_rows"],
+prop("C01", ["split_order", "take_range", "operator_tpl", "vec_utils", "group_take", "flatten_sort", "sort_take", "sort_infer", "setop_pairs", "lower_transform", "positional_map", "sql_prec", "literal_rows", "lower_expr"],
      select={"sql_prec": lambda n: n.split(".", 1)[1] in ("NP5eq", "NP5ne", "process_null.safety", "NP6a", "NP6b", "try_into_between.safety", "try_into_between.precondition")},
      not_covered="anchor_split cid redirection, preprocess (distinct/union recognition), lowering, flattening, the other pluck call sites of translate_select_pipeline (select / sort / take / join): hash-map threaded folds over three "
                  "IRs; a violation there is invisible to these contracts")
@@ -91,7 +91,7 @@ claim("C01",
       "(PL1-2, loop invariant PLI, any length) and Vec::break_up cuts at the first match (BU1-3); a grouped take becomes DISTINCT only for `take 1` without an order "
       "over a key that is the whole row, DISTINCT ON only for `take 1`, and otherwise a ROW_NUMBER() filter whose condition holds exactly for the positions kept "
       "(group_take DT1-4, RN1). the SQL back end's sort inference, one step per transform: FROM a CTE starts with the sorting recorded for it and leaves the record for its other consumers, Sort replaces it, Distinct / Aggregate clear it, Join keeps it unless it served a DISTINCT ON, Take / DISTINCT ON emit the ORDER BY in front of themselves, Select / Filter keep it; the record of a CTE is the sorting its pipeline ended with (sort_infer SI0-8, CS1-2); building a join call keeps the Flattener's sort (flatten_sort FT3). a join is replaced by EXCEPT / INTERSECT only if its condition is nothing but equalities (collect_equals, recursive, CE1-2) that pair top[i] with bottom[i] for every i and nothing else (equal_by_position, loop invariant EP1-3; recognition slices XR1-3, IR1-2). each PL transform call is lowered to the RQ transform of the same name over the lowered operands, appending nothing else but Computes and changing nothing already lowered (lower_transform LT0-9). "
-      "NOT proved: the end-to-end sentence of C01 (semantic preservation of the whole compiler).",
+      "lowering an expression to RQ is a homomorphism: literals, parameters, operator names, operand order, case branches, array elements, interpolation items survive, the recursive calls going through the function's own contract (lower_expr LL1 ... LF1: the whole of Lowerer::lower_expr except the Ident / All arms, lower_interpolations, str_lit, rq maybe_binop). NOT proved: the end-to-end sentence of C01 (semantic preservation of the whole compiler).",
       "Oracle: SQL's logical clause order. HashSet<String>, strum AsRefStr, contains_any, the filter/fold in can_materialize and "
       "infer_complexity_expr are trusted by contract; split_off_back's loop and anchor_split are not under contract.")
 
@@ -161,8 +161,9 @@ claim("C05",
       "translate_cid, the computation of the inferred name, HashMap / HashSet / NameGenerator are shims by contract; the iteration of retain() and "
       "the search of the Select in the CTE pipeline are dropped by the slices.")
 
-prop("C10", ["resolve_guards", "name_lookup", "lineage_except", "frame_decls", "resolver_unwraps", "module_names", "lower_ident", "pl_fold"],
-     select={"lineage_except": lambda n: n.split(".", 1)[1] in ("IC1", "IC2", "LE1", "LE2", "LE3", "SH1", "shadow_one.safety"),
+prop("C10", ["resolve_guards", "name_lookup", "lineage_except", "frame_decls", "resolver_unwraps", "module_names", "lower_ident", "pl_fold", "lower_expr"],
+     select={"lower_expr": lambda n: n.split(".", 1)[1] in ("LO2", "LO2i", "LT1", "LX1") or n.endswith("lower_expr.safety"),
+             "lineage_except": lambda n: n.split(".", 1)[1] in ("IC1", "IC2", "LE1", "LE2", "LE3", "SH1", "shadow_one.safety"),
              "resolver_unwraps": lambda n: n.split(".", 1)[1] in ("XA1", "WS1", "exclusion_arg.safety", "wildcard_self.safety")},
      not_covered="NS_INFER declarations (what resolve_ident_fallback infers), insert_frame (which columns a frame declares after select / "
                  "aggregate / group), resolve_ident_fallback inference, validate_expr_type (scalar where a relation is required): HashMap-of-Decl recursion; "
@@ -173,8 +174,8 @@ claim("C10",
       "Module::lookup returns the direct hits PLUS the hits through every redirect, for any number of redirects and whatever the direct lookup found "
       "(LK1, loop invariant LK2) - so a second candidate in another relation in scope is never missed; apply_args_to_closure returns Err whenever a named "
       "argument is not consumed by a named parameter of the callee (AA1-2); fold_function returns Err for more positional arguments than parameters, a "
-      "function value for fewer, and evaluates only a saturated call (FA1-3). a name that can only be inferred is created from exactly one inference template, is unknown with none and an error with several (resolve_ident_fallback's decision, RF1-3). what one path finds in one module (lookup_in, whole function; the recursion into sub-modules goes through the contract of Module::lookup): `p.rest` finds the members `rest` of the declaration p - of a nested module what its own lookup finds, of layered modules what the INNERMOST layer that finds anything finds (loop invariant over the reversed stack: shadowing), of anything else nothing - qualified with p; an undeclared name finds nothing; a single declared name finds itself or its `_self` (name_lookup LI1-6; Ident::pop_front PF1). `select !{..}` and the inference of a column of a wildcard table compare names exactly (lineage_except LE1-3, IC1-2); a newly defined column takes its bare name away from an earlier column that carries it and leaves every other column alone (SH1, per column: the loop over the columns is not under contract); an argument without a frame where a relation is required is an error, and a relation's frame comes into scope as `this` / `that` (resolve_guards GA1-2). what one column of a frame declares: a named column its own name as that column, a star only the `_infer` placeholder of an input that exists in the frame, an unnamed column nothing - every other name untouched (frame_decls FD1-3). in lowering, an identifier that the resolver bound to a node becomes the column recorded for that node, or an error when none is recorded - the name is handed to the database as text only for an identifier without a target (the Ident arm of lower_expr, lower_ident LI1-4); Lowerer::lookup_cid changes nothing, finds a computed node's column or the input's column of that name, and is an error - not a panic - otherwise (LK0-2). the default PL fold, through which the resolver reaches every expression it does not handle itself, hands every sub-expression of a node to the folder - tuple and array items, case conditions and values, s- / f-string items, the name, the positional and the named arguments of a call, the body and the applied arguments of a function, every operand of every transform kind, range bounds, sort keys - so no name escapes resolution inside a nested node (pl_fold PK1 ... PX1, 16 whole functions, loops by invariant over a ghost visit log). NOT proved: that an out-of-frame column has zero candidates (which declarations a frame inserts), relation / "
-      "scalar confusion.",
+      "function value for fewer, and evaluates only a saturated call (FA1-3). a name that can only be inferred is created from exactly one inference template, is unknown with none and an error with several (resolve_ident_fallback's decision, RF1-3). what one path finds in one module (lookup_in, whole function; the recursion into sub-modules goes through the contract of Module::lookup): `p.rest` finds the members `rest` of the declaration p - of a nested module what its own lookup finds, of layered modules what the INNERMOST layer that finds anything finds (loop invariant over the reversed stack: shadowing), of anything else nothing - qualified with p; an undeclared name finds nothing; a single declared name finds itself or its `_self` (name_lookup LI1-6; Ident::pop_front PF1). `select !{..}` and the inference of a column of a wildcard table compare names exactly (lineage_except LE1-3, IC1-2); a newly defined column takes its bare name away from an earlier column that carries it and leaves every other column alone (SH1, per column: the loop over the columns is not under contract); an argument without a frame where a relation is required is an error, and a relation's frame comes into scope as `this` / `that` (resolve_guards GA1-2). what one column of a frame declares: a named column its own name as that column, a star only the `_infer` placeholder of an input that exists in the frame, an unnamed column nothing - every other name untouched (frame_decls FD1-3). in lowering, an identifier that the resolver bound to a node becomes the column recorded for that node, or an error when none is recorded - the name is handed to the database as text only for an identifier without a target (the Ident arm of lower_expr, lower_ident LI1-4); Lowerer::lookup_cid changes nothing, finds a computed node's column or the input's column of that name, and is an error - not a panic - otherwise (LK0-2). the default PL fold, through which the resolver reaches every expression it does not handle itself, hands every sub-expression of a node to the folder - tuple and array items, case conditions and values, s- / f-string items, the name, the positional and the named arguments of a call, the body and the applied arguments of a function, every operand of every transform kind, range bounds, sort keys - so no name escapes resolution inside a nested node (pl_fold PK1 ... PX1, 16 whole functions, loops by invariant over a ghost visit log). relation / scalar confusion at lowering: an operator with a relation-typed operand, a bare tuple, an unapplied function or transform where a scalar is required is an error (lower_expr LO2, LT1, LX1, loop invariant over the operands). NOT proved: that an out-of-frame column has zero candidates (which declarations a frame inserts), relation / "
+      "scalar confusion in the resolver (validate_expr_type).",
       "HashSet<Ident> is a shim with a ghost set view; in resolve_guards lookup_in is external (it is under contract in name_lookup, where Module::lookup is external: the mutual recursion is cut at the contracts, its termination is not proved); resolve_ident_wildcard, resolve_ident_fallback, ambiguous_error, expr_of_func are "
       "external; the drain loop over named parameters is replaced by its contract (stated in the evidence).")
 
@@ -214,14 +215,14 @@ claim("C16",
       "every used id at its point of use (cid redirection through hash maps), select arity.",
       "toposort()'s HashMap index / outer loop, lower_table_decl and the Lowerer's node_mapping are not under contract.")
 
-prop("C13", ["span_units", "compose_errors", "span_frame"],
+prop("C13", ["span_units", "compose_errors", "span_frame", "lower_expr"], select={"lower_expr": lambda n: n.split(".", 1)[1] in ("LS1",)},
      not_covered="ariadne rendering (the quoted line), multi-file source ids, resolver / SQL-generation errors (their spans are copied from parser spans)")
 claim("C13",
       "PARTIAL. Proved on the real code: convert_lexer_error stores a span in CHARACTER units - the character positions of the byte offsets chumsky "
       "reported - with start <= end <= number of characters of the source and the given source id (SU3a-d, helpers inlined); compose_location reports "
       "exactly the line/column of span.start and span.end (SU1a-c); the parser's map_span yields the BYTE range of the tokens (SU2m). The linking "
       "obligation 'a byte offset inside the source is a character offset inside the source' (SU2) fails: recorded finding (panic / misplaced caret on "
-      "non-ASCII sources). a span that ErrorMessages::composed hands on names a source of the tree (compose_errors CP4); the end-of-input span and every span of at least one token has start <= end (span_units SU2o); FRAME (syntactic, whole tree): the functions that MAKE a span - a `Span { .. }` value, Span::new, span arithmetic - are the lexer's, the parser's and span.rs's, each with its contract or reason; everything else copies spans (span_frame SF.maker rows: a new maker needs a contract of its own). NOT proved: rendering, multi-file ids.",
+      "non-ASCII sources). a span that ErrorMessages::composed hands on names a source of the tree (compose_errors CP4); the end-of-input span and every span of at least one token has start <= end (span_units SU2o); FRAME (syntactic, whole tree): the functions that MAKE a span - a `Span { .. }` value, Span::new, span arithmetic - are the lexer's, the parser's and span.rs's, each with its contract or reason; everything else copies spans (span_frame SF.maker rows: a new maker needs a contract of its own); lowering keeps the span of every expression (lower_expr LS1), which is what errors of the SQL back end are located with. NOT proved: rendering, multi-file ids.",
       "UTF-8 text model (char_len <= byte_len, monotone prefix counts), chumsky's span contract, ariadne's get_offset_line and error constructors are "
       "assumed by contract.")
 
@@ -236,7 +237,7 @@ def _safety(name):
 
 
 _ALL_UNITS = ["take_range", "sort_take", "split_order", "window_frame", "dialect_select", "ident_quote", "ids_names", "toposort", "rq_tables",
-              "select_shape", "span_units", "sql_prec", "prql_prec", "literals", "set_ops", "desugar", "resolve_guards", "lex_strings", "limit_clause", "static_eval", "operator_tpl", "rel_names", "lower_cols", "vec_utils", "group_take", "flatten_sort", "star_exclude", "std_arity", "limit_select", "rq_shape", "star_cols", "func_env", "json_lits", "cte_define", "type_meet", "fmt_strings", "concat_ops", "sstring_query", "sstring_cols", "lineage_except", "sort_infer", "setop_pairs", "setops_reach", "tuple_unpack", "resolver_unwraps", "name_lookup", "frame_decls", "select_cols", "lower_transform", "sort_names", "positional_map", "fmt_interp", "datetime_lit", "lex_numbers", "rq_fold", "dialect_flags", "cid_inline", "module_names", "compose_errors", "lex_end_expr", "fmt_names", "header_args", "literal_rows", "tuple_helpers", "pipeline_types", "lower_ident", "sql_templates", "interp_ident", "table_instance", "fmt_width", "span_frame", "range_sugar", "pl_fold"]
+              "select_shape", "span_units", "sql_prec", "prql_prec", "literals", "set_ops", "desugar", "resolve_guards", "lex_strings", "limit_clause", "static_eval", "operator_tpl", "rel_names", "lower_cols", "vec_utils", "group_take", "flatten_sort", "star_exclude", "std_arity", "limit_select", "rq_shape", "star_cols", "func_env", "json_lits", "cte_define", "type_meet", "fmt_strings", "concat_ops", "sstring_query", "sstring_cols", "lineage_except", "sort_infer", "setop_pairs", "setops_reach", "tuple_unpack", "resolver_unwraps", "name_lookup", "frame_decls", "select_cols", "lower_transform", "sort_names", "positional_map", "fmt_interp", "datetime_lit", "lex_numbers", "rq_fold", "dialect_flags", "cid_inline", "module_names", "compose_errors", "lex_end_expr", "fmt_names", "header_args", "literal_rows", "tuple_helpers", "pipeline_types", "lower_ident", "sql_templates", "interp_ident", "table_instance", "fmt_width", "span_frame", "range_sugar", "pl_fold", "lower_expr"]
 
 
 def _c12_split_order(n):
@@ -257,8 +258,9 @@ claim("C12",
       "Preconditions (validated take bounds, operator arities as the resolver builds them, id counters below usize::MAX) are assumptions about call sites "
       "that are not themselves verified; RQ/PL supplied as JSON can violate them.")
 
-prop("C08", ["literals", "lex_strings", "json_lits", "concat_ops", "lex_numbers", "fmt_strings", "sql_prec", "static_eval"],
-     select={"static_eval": lambda n: n.split(".", 1)[1] in ("SE1", "SE1f", "static_eval_rq_operator.safety"),
+prop("C08", ["literals", "lex_strings", "json_lits", "concat_ops", "lex_numbers", "fmt_strings", "sql_prec", "static_eval", "lower_expr"],
+     select={"lower_expr": lambda n: n.split(".", 1)[1] in ("LL1", "LF1", "LF1i", "LSS1", "LIN1", "LIN1i", "SL1", "MB1") or n.endswith(".safety"),
+             "static_eval": lambda n: n.split(".", 1)[1] in ("SE1", "SE1f", "static_eval_rq_operator.safety"),
              "sql_prec": lambda n: n.split(".", 1)[1].startswith("NP4.std_neg.") or n.split(".", 1)[1] == "NP4s.std_neg",
              "fmt_strings": lambda n: n.split(".", 1)[1] in ("EQ1", "EQI", "EQD", "escape_all_except_quotes.safety")},
      not_covered="float text round trip, date/time/interval literals, f-string lowering, relation literal rows, "
@@ -271,7 +273,7 @@ claim("C08",
       "text that is neither (LN1-3); the string lexer (parse_escape_sequence and the body of multi_quoted_string, verbatim): \\n \\r \\t \\b \\f \\\\ \\/ and the "
       "escaped quote denote the documented character and consume one character (ES2a), \\xHH and \\u{H..} with 1-6 digits denote the character with that code "
       "and consume exactly the escape (ES2b-c), an unescaped string opened by n quotes is the text up to the FIRST run of n quotes, verbatim (MQ2, any n, any "
-      "length), every loop terminates and only moves forward (ES1, ES4, MQ1, MQL). JSON values of from_text become literals of the same value without panicking, for every number serde_json can hold (json_lits JL1-4). the operands handed to `||` / CONCAT for an f-string are exactly the flattened operands of the nested std.concat, in order (concat_ops CC1-2). a negative number literal is a unary minus, and the hole of the `neg` template demands more than the strength of a unary minus, so `-n` with n = -5 is `-(-5)` and never the comment `--5` (sql_prec NP4.std_neg rows, literals NE1); a comparison of two literals that is folded at compile time has the value the database would compute (static_eval SE1: same variant only - a string and a raw string are left to the database). NOT proved: float formatting round trip, backslash-escaping dialects, "
+      "length), every loop terminates and only moves forward (ES1, ES4, MQ1, MQL). JSON values of from_text become literals of the same value without panicking, for every number serde_json can hold (json_lits JL1-4). the operands handed to `||` / CONCAT for an f-string are exactly the flattened operands of the nested std.concat, in order (concat_ops CC1-2). a negative number literal is a unary minus, and the hole of the `neg` template demands more than the strength of a unary minus, so `-n` with n = -5 is `-(-5)` and never the comment `--5` (sql_prec NP4.std_neg rows, literals NE1); a comparison of two literals that is folded at compile time has the value the database would compute (static_eval SE1: same variant only - a string and a raw string are left to the database). lowering hands a literal on unchanged, turns an f-string into the left-nested std.concat of its items in order with every text item as the string literal of exactly that text (the empty f-string is ''), and keeps the text items of an s-string (lower_expr LL1, LF1, LSS1, LIN1). NOT proved: float formatting round trip, backslash-escaping dialects, "
       "content of escaped strings beyond one escape.",
       "sqlparser's Display (leaves doubled quotes alone - read in its source, validated by the thorough-tier sweep on SQLite) and sqlformat (white space only, given "
       "its precondition) are trusted; str::parse, str::replace and format! are uninterpreted; date/time/interval arms are not under contract.")
